@@ -193,6 +193,26 @@ class NullKernel(ProbeKernel):
     pass
 
 
+def probe_book(k):
+    """Every booked probe kernel class documents its own messages (the same codes mean different things per kernel)."""
+    return {0: "no errors", 1: f"probe {k} error one", 2: f"probe {k} error two", -1: f"probe {k} skipped"}
+
+
+class ProbeKernelB1(ProbeKernel):
+    error_book: ClassVar[dict[int, str]] = probe_book(1)
+
+
+class ProbeKernelB2(ProbeKernel):
+    error_book: ClassVar[dict[int, str]] = probe_book(2)
+
+
+class ProbeKernelB3(ProbeKernel):
+    error_book: ClassVar[dict[int, str]] = probe_book(3)
+
+
+BOOKED = {1: ProbeKernelB1, 2: ProbeKernelB2, 3: ProbeKernelB3}
+
+
 def read_logs(engine):
     """Per (chain, kernel): list of event dicts, from the engine's kernel states."""
     kss = getattr(engine, "_kernel_states")
